@@ -242,9 +242,10 @@ fn run_py_watch(args: &[&str], timeout_s: u64) -> Result<Option<(Option<Value>, 
     let outt = std::thread::spawn(move || { let mut s = String::new(); let _ = out.read_to_string(&mut s); s });
     let start = std::time::Instant::now();
     let mut timed_out = false;
+    let mut died_on_signal: Option<i32> = None;
     loop {
         match child.try_wait() {
-            Ok(Some(_)) => break,
+            Ok(Some(st)) => { use std::os::unix::process::ExitStatusExt; died_on_signal = st.signal(); break }
             Ok(None) => {
                 if start.elapsed().as_secs() > timeout_s { timed_out = true; let _ = child.kill(); let _ = child.wait(); break; }
                 std::thread::sleep(std::time::Duration::from_millis(50));
@@ -255,6 +256,9 @@ fn run_py_watch(args: &[&str], timeout_s: u64) -> Result<Option<(Option<Value>, 
     let stderr = errt.join().unwrap_or_default();
     let stdout = outt.join().unwrap_or_default();
     let last_marker = stderr.lines().rev().find_map(|l| l.strip_prefix('@').and_then(|x| x.trim().parse::<u64>().ok()));
+    if let (Some(sig), false) = (died_on_signal, timed_out) {
+        return Err(format!("CRASH: the Python process running `pyfront.py {}` was killed by signal {sig} (last progress marker {:?}; last lines of stderr: {})", args.join(" "), last_marker, stderr.lines().rev().take(3).collect::<Vec<_>>().join(" / ")));
+    }
     if timed_out {
         return Ok(Some((None, last_marker)));
     }
@@ -333,6 +337,10 @@ pub fn sweep(report: &Report, cmd: &str, arg: usize, what: &str, keep: &[&str], 
     let t = std::time::Instant::now();
     match run_py_watch(&[cmd, &arg.to_string()], 600) {
         Ok(None) => not_covered(report, "bindings not built or python3-vt missing"),
+        Err(e) if e.starts_with("CRASH: ") && (e.contains("signal 11") || e.contains("signal 4") || e.contains("signal 7") || e.contains("signal 8") || e.contains("signal 6")) => {
+            // SIGSEGV / SIGILL / SIGBUS / SIGFPE / abort inside the extension module: safe Python code brought the interpreter down
+            report.violation(Violation { identity: format!("Python front end | sweep `{cmd}` | the extension module crashes the interpreter"), detail: e, case: json!({"kind": "none"}) });
+        }
         Err(e) => { eprintln!("MACHINERY: {e}"); std::process::exit(2); }
         Ok(Some((None, _))) => {
             report.violation(Violation { identity: format!("Python front end | sweep `{cmd}` | does not terminate"),
